@@ -51,7 +51,7 @@ LEAN = {"module": "Pygom.Props.C16",
                      "Pygom.C16.foreign_retry_breaks_counterexample", "Pygom.C16.mean_is_mean",
                      "Pygom.C16.first_wait_is_min_of_draws", "Pygom.C16.different_first_wait_different_path",
                      "Pygom.C16.different_streams_same_output_counterexample"]}
-BUDGET = {"quick": {"stoch": 320, "param": 180},
+BUDGET = {"quick": {"stoch": 500, "param": 300},
           "thorough": {"stoch": 3000, "param": 2200, "max_steps": 1000, "steps": [30, 80, 200, 400]}}
 RULE = ("serial calls only (parallel=False). STOCH cases: bounded-rate event models of the shared generator (1-5 states, 1-5 events, "
         "all API routes, derived parameters), integer initial states, x {exact, adaptive tau, fixed tau with steps large enough to be "
